@@ -122,6 +122,24 @@ def replay_search(prop, failure, tier):
         except Exception:
             out = {"error": (p.stdout[-1000:] + p.stderr[-1000:])}
         rec.update(out)
+        if not out.get("failing_inputs"):
+            # nothing in the label's own family: sweep the property's families (an implicit obligation inside f undermines
+            # every clause of f, so any probe of the property that the real code gets wrong is a witness)
+            fams = load_props().get(prop, {}).get("families", [])
+            if fams:
+                p2 = subprocess.run([sys.executable, drv, "--sweep", ",".join(fams), "--tier", tier], capture_output=True, text=True, timeout=3000)
+                try:
+                    out2 = json.loads(p2.stdout)
+                except Exception:
+                    out2 = {}
+                kfs = [k for k in load_known().get("findings", []) if k.get("property") == prop and k.get("probe")]
+                fi = [x for x in out2.get("failing_inputs", []) if not any(re.search(k["probe"], x["id"]) for k in kfs)]
+                rec["property_sweep"] = {"families": fams, "tried": out2.get("tried", 0), "failing_count": len(fi)}
+                if fi:
+                    rec["failing_inputs"] = fi[:12]
+                    rec["failing_count"] = len(fi)
+                    rec["tried"] = rec.get("tried", 0) + out2.get("tried", 0)
+                    return True, rec
         return bool(out.get("failing_inputs")), rec
     except Exception as e:
         rec["error"] = repr(e)
